@@ -227,7 +227,7 @@ func checkC13(r *Run) error {
 	}, "fault_enumeration")
 }
 
-func c13Budgets() simrt.Budgets { return simrt.Budgets{Ticks: 50_000_000, IO: 1000, Depth: 50_000} }
+func c13Budgets() simrt.Budgets { return simrt.Budgets{Ticks: 50_000_000, IO: 5000, Depth: 50_000} }
 
 type c13Case struct {
 	c    simrt.Case
